@@ -22,7 +22,7 @@ RULE = ("trees and lone files x output directory {absolute fresh, relative to th
         "excluded), each exactly once and followed by one empty line, pages of one directory in sorted name order, nothing "
         "else; a sample is re-run as a real subprocess for true stdout. Non-trivial: output directory pre-populated or "
         "nested/parent, and a tree with >=2 directories; distinct by SHA-1 of the case")
-RULE_MORE = 'snapshots include modification times; the same command line run twice into one output directory; a symbolic link in the tree to a CMake file outside it. Later: auto-exclusion off; unrelated files extending generated names; a page > 64 KiB; output path with decomposed characters.'
+RULE_MORE = 'snapshots include modification times; the same command line run twice into one output directory; a symbolic link in the tree to a CMake file outside it. Later: auto-exclusion off; unrelated files extending generated names; a page > 64 KiB; output path with decomposed characters; (round 10) an unrelated regular file named like an input subdirectory; the API called three times for stdout.'
 ASSUMPTIONS = ["the in-process runner captures sys.stdout/sys.stderr including logging handlers bound at configuration time",
                "creating missing ancestors of the output directory is part of creating the output directory"]
 BUDGET = {"quick": {"shards": 8, "examples": 80}, "thorough": {"shards": 16, "examples": 1200}}
@@ -45,6 +45,8 @@ def strategy(tier):
         "diagnostics": st.sampled_from([True, False, False, False]),
         # the same command line already ran once into the same output directory
         "rerun": st.sampled_from([False, False, True]),
+        "blocker": st.sampled_from([False, True]),
+        "api_repeat": st.sampled_from([False, False, True]),
         # a symbolic link in the tree to a CMake file that lives elsewhere
         "filelink": st.sampled_from([None, None, "top", "sub"]),
         # auto-exclusion of directories without CMake files off (never together with an output directory inside the tree)
@@ -127,6 +129,10 @@ def evaluate(case):
         else:
             out_arg = out_abs = loc
         prepop = {}
+        blocker = None
+        if case.get("blocker") and case["recursive"] and not lone and tree["dirs"] and not case.get("rerun") \
+                and not outloc.startswith("nested") and outloc != "parent":
+            blocker = sorted(tree["dirs"])[-1]
         if case["prepopulate"] or outloc == "nested-existing":
             prepop = {"KEEP_1.txt": b"keep me\n", "zz_keep/old.rst": b"old page\n", "notes.md": b"# notes\n",
                       "overview.rst": b"Hand written\n============\n", ".hidden.rst": b"x\n", "conf.py": b"project = 'x'\n"}
@@ -140,11 +146,16 @@ def evaluate(case):
                 for suffix in (".rst.tmp", ".rst~", ".rst.bak", ".rst.new", ".tmp"):
                     prepop[stem + suffix] = b"not generated by cminx\n"
                 prepop["." + stem + ".rst.swp"] = b"swap\n"
-            for rel, data in prepop.items():
-                p = os.path.join(out_abs, rel)
-                os.makedirs(os.path.dirname(p), exist_ok=True)
-                with open(p, "wb") as f:
-                    f.write(data)
+        if blocker:
+            # the user's own regular file sits where the run would like to create a mirrored directory
+            prepop = {k: v for k, v in prepop.items() if not k.startswith(blocker + "/")}
+            prepop[blocker] = b"my notes, not a directory\n"
+            res.labels.append("unrelated-file-named-like-an-input-subdirectory")
+        for rel, data in prepop.items():
+            p = os.path.join(out_abs, rel)
+            os.makedirs(os.path.dirname(p), exist_ok=True)
+            with open(p, "wb") as f:
+                f.write(data)
         cfg = sb.path("settings.yaml")
         settings = {"input": {f"include_undocumented_{k}": False for k in case["flags_off"]},
                     "rst": {"file_extensions_in_titles": case["ext"]}}
@@ -171,6 +182,15 @@ def evaluate(case):
                 return res
         before = S.snapshot(sb.root, times=True)
         run = S.run_main(common + ["-o", out_arg], cwd=cwd)
+        if blocker and (run.exc is not None or run.code != 0):
+            # refusing loudly is fine; replacing or changing the user's file is not
+            for rel, data in prepop.items():
+                p = os.path.join(out_abs, rel)
+                if not os.path.isfile(p) or os.path.islink(p) or open(p, "rb").read() != data:
+                    res.fail("unrelated-file-touched", f"pre-existing {rel} in the output directory was changed or removed")
+            res.labels.append("blocked-run-refused")
+            res.nontrivial = True
+            return res
         if run.exc is not None or run.code != 0:
             res.fail("with-o:" + (exc_key(run.exc) if run.exc else f"exit-{run.code}"), (repr(run.exc) + run.stderr)[-300:])
             return res
@@ -199,7 +219,7 @@ def evaluate(case):
                 written[os.path.relpath(os.path.join(sb.root, p), out_abs)] = None
         for rel, data in prepop.items():
             p = os.path.join(out_abs, rel)
-            if not os.path.exists(p) or open(p, "rb").read() != data:
+            if not os.path.isfile(p) or open(p, "rb").read() != data:
                 res.fail("unrelated-file-touched", f"pre-existing {rel} in the output directory was changed or removed")
         pages = {}
         for rel in written:
@@ -244,6 +264,33 @@ def evaluate(case):
                     res.fail("stdout-order-within-directory", f"directory {d!r}: printed {names}, sorted order is {want}")
         if run2.stderr.strip() and not (case.get("diagnostics") and not lone):
             res.fail("stdout-mode-stderr-noise", run2.stderr[:200])
+        if case.get("api_repeat") and not (case.get("diagnostics") and not lone) and not res.failures:
+            # the public API called again and again in one process: every call prints the same pages
+            import cminx
+            import io as _io
+            import contextlib as _cl
+            res.labels.append("api-called-repeatedly-for-stdout")
+            captured = []
+            orig = cminx.document
+            cminx.document = lambda f_, s_: captured.append((f_, s_))
+            try:
+                S.run_main(common, cwd=cwd)
+            finally:
+                cminx.document = orig
+            outs = []
+            for _k in range(3):
+                buf = _io.StringIO()
+                old_cwd = os.getcwd()
+                os.chdir(cwd)
+                try:
+                    with _cl.redirect_stdout(buf), _cl.redirect_stderr(_io.StringIO()):
+                        for f_, s_ in captured:
+                            cminx.document(f_, s_)
+                finally:
+                    os.chdir(old_cwd)
+                outs.append(buf.getvalue())
+            if not (outs[0] == outs[1] == outs[2] == run2.stdout):
+                res.fail("stdout-mode:repeated-api-call-differs", f"lengths of the printed text: main {len(run2.stdout)}, API calls {[len(o) for o in outs]}")
         # real subprocess for a sample
         if int(digest(case)[:2], 16) % 8 == 0:
             res.labels.append("subprocess-stdout")
